@@ -107,6 +107,44 @@ def corpus(chk, tag):
     #    consecutive jumps, jumps to the next instruction; r0 accumulates a different constant per block, so the path is visible
     for _ in range(6000 if thorough else 1200):
         out.append(Case(cfg_program(rng, 2 + rng.below(9)), fam='cfg-shape', budget=5000))
+    # 6. fields an instruction does not use hold anything the verifier lets through: they must not matter to any engine
+    def patch(b, dst=None, src=None, off=None, imm=None):
+        b = bytearray(b)
+        if dst is not None:
+            b[1] = (b[1] & 0xf0) | dst
+        if src is not None:
+            b[1] = (b[1] & 0x0f) | (src << 4)
+        if off is not None:
+            b[2:4] = (off & 0xffff).to_bytes(2, 'little')
+        if imm is not None:
+            b[4:8] = (imm & 0xffffffff).to_bytes(4, 'little')
+        return bytes(b)
+    junk_r = (1, 5, 9, 10)
+    junk_o = (1, -1, 0x7fff)
+    junk_i = (1, -1, 0x7fffffff, -0x80000000)
+    pk16 = bytes((11 * i + 7) & 255 for i in range(64))
+    for k in range(len(junk_r) * 3):
+        jr, jo, ji = junk_r[k % 4], junk_o[k % 3], junk_i[k % 4]
+        d = 1 + k % 8
+        for w in (32, 64):
+            for name in ('add', 'mul', 'div', 'mov', 'arsh'):
+                out.append(Case(B.load_const(d, VALS[k % len(VALS)]) + patch(B.alu(name, d, imm=3, w=w), src=jr, off=jo) + B.movr(0, d) + B.EXIT, fam='ignored:alu-imm'))
+                out.append(Case(B.load_const(d, VALS[k % len(VALS)]) + B.load_const(9 - d % 2, 5) + patch(B.alu(name, d, src=9 - d % 2, w=w), off=jo, imm=ji) +
+                                B.movr(0, d) + B.EXIT, fam='ignored:alu-reg'))
+            out.append(Case(B.load_const(d, 77) + patch(B.alu('neg', d, w=w), src=jr, off=jo, imm=ji) + B.movr(0, d) + B.EXIT, fam='ignored:neg'))
+            out.append(Case(B.load_const(d, 7) + patch(B.jmp('jgt', d, 2, imm=3, w=w), src=jr) + B.mov(0, 1) + B.EXIT + B.mov(0, 2) + B.EXIT, fam='ignored:jmp-imm'))
+            out.append(Case(B.load_const(d, 7) + B.load_const(9, 9) + patch(B.jmp('jslt', d, 2, src=9, w=w), imm=ji) + B.mov(0, 1) + B.EXIT + B.mov(0, 2) + B.EXIT,
+                            fam='ignored:jmp-reg'))
+        out.append(Case(B.load_const(d, 0x1122334455667788) + patch(B.endian(k % 2 == 0, d, (16, 32, 64)[k % 3]), src=jr, off=jo) + B.movr(0, d) + B.EXIT, fam='ignored:endian'))
+        out.append(Case(patch(B.lddw(d, 0x0102030405060708)[:8], off=jo) + patch(B.lddw(d, 0x0102030405060708)[8:], dst=jr % 10, src=jr, off=jo) + B.movr(0, d) + B.EXIT,
+                        fam='ignored:lddw'))
+        out.append(Case(B.mov(0, 3) + patch(B.ja(1), dst=d, src=jr, imm=ji) + B.mov(0, 4) + patch(B.EXIT, dst=d, src=jr, off=jo, imm=ji), fam='ignored:ja-exit'))
+        for sz in ('b', 'w', 'dw'):
+            out.append(Case(B.mov(0, 0x55) + patch(B.ldabs(sz, 8), dst=d, src=jr, off=jo) + B.EXIT, mem=pk16, fam='ignored:ldabs'))
+            out.append(Case(B.mov(0, 0x55) + B.mov(3, 4) + patch(B.ldind(sz, 3, 8), dst=d, off=jo) + B.EXIT, mem=pk16, fam='ignored:ldind'))
+            out.append(Case(patch(B.ldx(sz, 0, 1, 8), imm=ji) + B.EXIT, mem=pk16, fam='ignored:ldx'))
+            out.append(Case(patch(B.st(sz, 1, 8, 0x31), src=jr) + B.ldx('dw', 0, 1, 8) + B.EXIT, mem=pk16, fam='ignored:st'))
+            out.append(Case(B.load_const(2, 0x4142434445464748) + patch(B.stx(sz, 1, 2, 8), imm=ji) + B.ldx('dw', 0, 1, 8) + B.EXIT, mem=pk16, fam='ignored:stx'))
     return out
 
 
